@@ -419,7 +419,7 @@ func genFCCase(t *rapid.T) FCCase {
 func TestC11_Random(t *testing.T) {
 	rec := evid.New("C11", "c11_random", "rapid: Base/BaseResp/ApplicationException values (strings of length 0,1..16,300,4095,4096,4097,20000 with pattern bytes, any i32, Extra nil/empty/1..40 entries, nil receiver) -> BLength == FastWrite == FastWriteNocopy(nil) == len(FastMarshal), image decodes by the reference to exactly the known fields, FastRead(FastWrite(x)) == x; and reference-built images with the known fields in any permutation interleaved with 0..4 unknown fields per gap drawn from the full typed-value generator (ids colliding with known ids under other types) + trailer -> FastRead returns (len(struct), nil) and the expected value; non-trivial = permuted known fields AND >= 1 unknown field of a container type")
 	defer rec.Flush()
-	runRapid(t, rec, "c11_fastcodec", evid.Pick(30000, 50000), genFCCase, checkFastCodec)
+	runRapid(t, rec, "c11_fastcodec", evid.Pick(30000, 300000), genFCCase, checkFastCodec)
 }
 
 func permutations(n int) [][]int {
